@@ -11,13 +11,14 @@ R == INSTANCE Req
 Tri == {"absent", "true", "false"}
 \* "fnconc": a fn with a concrete dependency - for the options it is a fn; its generated trait additionally carries
 \* `#[::entrait::entrait(unimock = false, mockall = false)]`, i.e. a NESTED trait-mode invocation with both mock kinds off
-Kind(t) == IF t = "fnconc" THEN "fn" ELSE t
-Lattice == [macro : {"entrait", "entrait_export"}, feature : BOOLEAN, target : {"fn", "fnconc", "mod", "trait"},
+\* "marker": an entraited trait WITHOUT methods (for the options it is a trait)
+Kind(t) == IF t = "fnconc" THEN "fn" ELSE IF t = "marker" THEN "trait" ELSE t
+Lattice == [macro : {"entrait", "entrait_export"}, feature : BOOLEAN, target : {"fn", "fnconc", "mod", "trait", "marker"},
             unimock : Tri, mock_api : {"absent", "present"}, mockall : Tri, export : Tri]
 TriOpt(k, v) == IF v = "absent" THEN <<>> ELSE IF v = "true" THEN <<Bare(k)>> ELSE <<Eq(k, "false")>>
 OptsOf(p) == TriOpt("unimock", p.unimock) \o (IF p.mock_api = "present" THEN <<Eq("mock_api", "Mk")>> ELSE <<>>)
              \o TriOpt("mockall", p.mockall) \o TriOpt("export", p.export)
-AttrOf(p) == [lead |-> IF p.target = "trait" THEN "" ELSE "pub T", opts |-> OptsOf(p), trail |-> ""]
+AttrOf(p) == [lead |-> IF Kind(p.target) = "trait" THEN "" ELSE "pub T", opts |-> OptsOf(p), trail |-> ""]
 FE(p) == FrontEnd(Kind(p.target), AttrOf(p), p.macro, p.feature)
 \* the nested invocation on the generated trait (the facade's `entrait` name: the variant follows the feature)
 NestedFE(p) == FrontEnd("trait", [lead |-> "", opts |-> <<Eq("unimock", "false"), Eq("mockall", "false")>>, trail |-> ""], "entrait", p.feature)
@@ -39,7 +40,7 @@ Init == /\ p \in Lattice
 ParseOneOpt == /\ pc = "opts" /\ pos <= Len(OptsOf(p))
                /\ st' = Step(Kind(p.target), st, OptsOf(p)[pos]) /\ pos' = pos + 1 /\ UNCHANGED <<p, pc, out>>
 EndOfOpts   == /\ pc = "opts" /\ pos > Len(OptsOf(p))
-               /\ st' = IF p.target = "trait" THEN TraitSemantic(st) ELSE st
+               /\ st' = IF Kind(p.target) = "trait" THEN TraitSemantic(st) ELSE st
                /\ pc' = "fallbacks" /\ UNCHANGED <<p, pos, out>>
 ApplyVariantFallbacks ==
                /\ pc = "fallbacks"
@@ -58,7 +59,7 @@ Spec == Init /\ [][Next]_vars
 
 StepwiseIsPred == pc = "done" => out.unimock = PredObs(p).unimock /\ out.mockall = PredObs(p).mockall /\ out.gated = PredObs(p).ugated
 \* `export` is not an option of the trait target: those lattice points are rejections (C15/C17), not C10 cases
-OnlyExportOnTraitRejected == pc = "rejected" <=> (pc \in {"rejected"} /\ p.target = "trait" /\ p.export # "absent")
+OnlyExportOnTraitRejected == pc = "rejected" <=> (pc \in {"rejected"} /\ Kind(p.target) = "trait" /\ p.export # "absent")
 Refines == pc = "done" => R!C10_Fail(p, WithBuilds(p, PredObs(p))) = {}
 
 CaseRec(q) == [ in |-> q, text |-> AttrText(Kind(q.target), AttrOf(q)), pred |-> PredObs(q) ]
